@@ -38,12 +38,20 @@ func init() {
 	core.Register(&core.Check{
 		ID:    prop,
 		Level: "model_checking",
-		Rule: "BFS over canonical world states reached by chains install(values) -> (upgrade x {default,reset,reuse,reset-then-reuse} x 6 value trees x charts v1..v3 | rollback to every stored revision)*, " +
+		Rule: "BFS over canonical world states reached by chains install(values) -> (upgrade x {default,reset,reuse,reset-then-reuse} x value trees {none,{a:1},{a:null},{a:{x:1}},{b:s},{a:{y:2}}[,{a:{x:null}}]} " +
+			"x charts (per plan: the version after the deployed one | same and next | all of v1..v3; defaults of a,b,c differ between versions, a changes type) | rollback to every stored revision)*, " +
 			"fault-free, memory and secrets drivers; every transition is the real action on a clone of the state; the reference (overlay / effective values / defaults in force) " +
 			"is evaluated on every transition against Release.Config of every stored revision, the probe document in Release.Manifest and the probe ConfigMap in the simulated cluster; " +
 			"distinct = canonical (state, step) pairs; non-trivial = the step succeeded and created a revision",
 		Run:    run,
 		Replay: replay,
+		// no hang risk in this check; on a loaded machine the default 900 s quick watchdog is too tight
+		WorkerTimeoutS: func(tier string) int {
+			if tier == "thorough" {
+				return 6 * 3600
+			}
+			return 3600
+		},
 		Assumptions: []string{
 			"fault-free chains only (the statement is about successful steps); simulated API server, scripted waiter",
 			"null in new values is a value: overlay(old,new)[k]=new[k] (maps on both sides overlaid recursively); rendered values are compared with null-valued keys dropped on both sides",
@@ -160,9 +168,9 @@ func plans(tier string) []plan {
 	vals7 := append(append([]namedVals{}, stepValues...), stepValuesThorough...)
 	if tier == "thorough" {
 		return []plan{
-			{"mem-len3-allcharts", []string{"memory"}, 3, initsThorough, vals7, "all"},
+			{"mem-len3-allcharts", []string{"memory"}, 3, initsQuick, vals7, "all"},
 			{"mem-len4-nextchart", []string{"memory"}, 4, initsThorough, stepValues, "next"},
-			{"sec-len3-same+next", []string{"secrets"}, 3, initsThorough, vals7, "same,next"},
+			{"sec-len3-same+next", []string{"secrets"}, 3, initsQuick, stepValues, "same,next"},
 			{"sec-len4-nextchart", []string{"secrets"}, 4, []string{"i-a5-bu", "i-amap"}, stepValues, "next"},
 		}
 	}
@@ -735,7 +743,7 @@ func evaluate(t *opspace.Transition) (v verdict) {
 	if t.Driver == "secrets" && hasFloat(any(dep.Config)) {
 		floor("secrets-json-roundtrip")
 	}
-	if t.Depth == 3 && (class == "overlaid" || mode == "rollback") {
+	if t.Depth == 3 && ((class == "overlaid" && dclass != "defaults-same") || (mode == "rollback" && canon(tgtCfg) != canon(depCfg) && dclass == "defaults-new")) {
 		v.Sample = map[string]any{"driver": t.Driver, "install": t.Init, "history": opspace.PathStrings(t.Path),
 			"recorded_values": recorded(post), "rendered_values_of_new_revision": pv}
 	}
